@@ -28,6 +28,11 @@ def main():
             extra = json.load(open(os.path.join(d, 'verdict.json')))
         caught = {c['property']: [s['signature'] for s in c['signatures']]
                   for c in ev.get('checks', []) if c['exit'] == 1}
+        cross = {}
+        pa = os.path.join(d, 'evaluation_all.json')
+        if os.path.exists(pa):
+            ea = json.load(open(pa))
+            cross = {c['property']: c['exit'] for c in ea.get('checks', [])}
         meta = {
             'id': sid,
             'property': notes.get('property', sid.split('_')[0]),
@@ -44,6 +49,11 @@ def main():
                     f'python -m gpsim.seeded eval seeded/{sid} --props <ids>'],
             },
             'caught_by': caught,
+            'cross_matrix_quick_n3000': {
+                'caught_by': sorted(k for k, v in cross.items() if v == 1),
+                'clean': sorted(k for k, v in cross.items() if v == 0),
+                'harness_error': sorted(k for k, v in cross.items() if v not in (0, 1)),
+                'note': 'every quick check with --n 3000 against this change, at the commit current when it was run (some checks were strengthened later)'} if cross else None,
             'first_version_of_the_check_caught_it': extra.get('first_try', True),
             'strengthening': extra.get('strengthening', ''),
         }
@@ -64,6 +74,9 @@ def main():
                 '|---|---|---|---|---|---|---|\n')
         for m in rows:
             cb = '; '.join(f"{k}: {', '.join(v[:2])}" for k, v in m['caught_by'].items()) or 'NOT CAUGHT'
+            x = m.get('cross_matrix_quick_n3000')
+            if x:
+                cb += ' [all checks at n=3000: ' + ','.join(x['caught_by']) + ']'
             f.write(f"| {m['id']} | {m['property']} | {(m['what_changed'] or '')[:220]} | "
                     f"{(m['needs_to_manifest'] or '')[:220]} | "
                     f"{m['confirmed_by_me']['full_suite_on_patched_copy']} | {cb} | "
